@@ -157,6 +157,17 @@ def _call(ex, ev, model):
             ex.add_variable(ev["state"], ev["slot"], ev["name"], frame, **kw)
     except Exception as e:          # the exporter's failure is an outcome, not a crash of the check
         return e
+    if ev.get("probe_default_import"):
+        import pylife.vmap as vmap
+        imp = None
+        try:
+            imp = vmap.VMAPImport(ex._file_name)
+            imp.make_mesh(ev["slot"], ev["state"]).join_variable(ev["name"]).to_frame()
+        except Exception:           # noqa: BLE001 - refusing the default names is fine; not judged
+            pass
+        finally:
+            if imp is not None:
+                imp._file.close()
     return None
 
 
@@ -290,9 +301,10 @@ def _import(fn, slot, state=None, variables=(), node_set=None, element_set=None,
             if coordinates:
                 stage = "join_coordinates"
                 o = o.join_coordinates()
-            for name, _, cols in [v[:3] for v in variables]:
+            for v in variables:
+                name, cols, explicit = v[0], v[2], len(v) > 4 and v[4]
                 stage = "join_variable"
-                o = o.join_variable(name, column_names=None if name in KNOWN_NAMES else list(cols))
+                o = o.join_variable(name, column_names=None if name in KNOWN_NAMES and not explicit else list(cols))
             stage = "to_frame"
             out.append(_table(o.to_frame()))
         lst = None
@@ -473,6 +485,27 @@ def _check_state(fn, model):
             if tabs[0]["rows"] != members:
                 viol.append(("C20/set-filter/%s" % kind, {"geometry": slot, "mesh": m["id"], "set": name, "ids": ids,
                                                           "got": tabs[0]["rows"], "expected": members}))
+                continue
+            # the set filter followed by coordinates and every variable of a state: the member rows with the values
+            # written for them (NaN where a variable was exported for other elements only)
+            for st in states:
+                variables = model.vars.get((st, slot), [])
+                if not variables:
+                    continue
+                tabs, _, err = _import(fn, slot, state=st, variables=variables, **kw)
+                chains += 1
+                if err:
+                    viol.append(("C20/set-filter-with-variables/%s-raises-%s" % (err[0], type(err[1]).__name__),
+                                 {"geometry": slot, "mesh": m["id"], "set": name, "state": st, "error": str(err[1])[:200]}))
+                    continue
+                cols, values = R.expected_columns(m, variables, st)
+                want = [v for r, v in zip(exp_rows, values) if r[pos] in ids]
+                got = tabs[0]
+                if got["rows"] != members or got["columns"] != cols or len(got["values"]) != len(want) or \
+                        any(not _same(a, b) for gr, wr in zip(got["values"], want) for a, b in zip(gr, wr)):
+                    viol.append(("C20/set-filter-with-variables/%s" % kind,
+                                 {"geometry": slot, "mesh": m["id"], "set": name, "ids": ids, "state": st, "variables": [v[0] for v in variables],
+                                  "rows": got["rows"], "columns": got["columns"], "got": got["values"], "expected": want}))
     # one importer object used for several geometries, an unfinished chain on another geometry in front
     for a in sorted(fresh):
         for b in sorted(fresh):
@@ -699,7 +732,8 @@ def _frontier(tier):
     return states, replays
 
 
-SCENARIOS = [["G:strip40", "NS:P", "ES:P", "V:P:s1:DISPLACEMENT", "V:P:s1:STRESS_CAUCHY", "V:P:s2:EN"]]
+SCENARIOS = [["G:strip40", "NS:P", "ES:P", "V:P:s1:DISPLACEMENT", "V:P:s1:STRESS_CAUCHY", "V:P:s2:EN"],
+             ["G:strip40", "ES:P", "ES2:P", "V:P:s1:ENSUB", "V:P:s2:DISP2D", "V:P:s1:DISPLACEMENT"]]
 
 
 def shards(tier):
